@@ -134,6 +134,7 @@ def widen(draw, node):
 
 
 _CALL_ANY = ['shallow', 'Callable[...,Any]']
+_CALL_OBJ = ['shallow', 'Callable[...,object]']
 
 
 def _mentions(node, leaf):
@@ -153,12 +154,12 @@ def _replace(node, leaf, new):
 def _sanitize(node):
     """(node, excluded).  Hashable is dropped from this property's grammar: issubclass(Collection, Hashable) is True in
     Python itself although instances need not be hashable, so class-based subhinting to Hashable says nothing about
-    beartype.  Callable[..., Any] nested in another hint is the shape of a listed known finding."""
-    n = 0
+    beartype."""
     node = _replace(node, ['shallow', 'Hashable'], ['shallow', 'Sized'])
-    if node != _CALL_ANY and _mentions(node, _CALL_ANY):
-        node, n = _replace(node, _CALL_ANY, ['shallow', 'Callable[[int],str]']), 1
-    return node, n
+    # PEP 695 aliases are documented as unsupported by TypeHint: each stands for its target here
+    for name, (_alias, target) in H.ALIASES.items():
+        node = _replace(node, ['alias', name], target)
+    return node, 0
 
 
 @st.composite
@@ -215,6 +216,8 @@ def _mentions_typing_any(node):
     if node[0] == 'any':
         return node[1] == 'Any'
     if node[0] == 'type' and node[2] == 'TAny':      # typing.Type[typing.Any]
+        return True
+    if node == _CALL_ANY:                            # typing.Callable[..., typing.Any]
         return True
     found = []
     H._map_children(node, lambda ch: found.append(_mentions_typing_any(ch)) or ch)
@@ -352,7 +355,7 @@ def run_case(case):
                     except Exception as e:
                         ok = e
                 if ok is not True:
-                    lab = ('callable-ellipsis-any-child' if nodes[y] != _CALL_ANY and _mentions(nodes[y], _CALL_ANY)
+                    lab = ('callable-ellipsis-ignorable-child' if _mentions(nodes[y], _CALL_OBJ) and nodes[y] != _CALL_OBJ
                            else '%s<=%s' % (_shape(nodes['A']), _shape(nodes[y])))
                     fail('unsound-subhint:%s' % lab,
                          'is_subhint(%s, %s) holds, %r conforms to the first but is_bearable against the second gives %r '
